@@ -129,20 +129,24 @@ def worker_rules(chk, prog, w, spawn_body):
             chk.ob("R2.no_hoarding", fn, "no collection of dequeued tasks is alive while a task runs", not held,
                    f"a worker holds further dequeued tasks ({held[:1]}) while running one: if that task panics the others are dropped unrun, and they wait "
                    f"behind it although other workers are idle", where=we.where(blk))
-    # ---- R5: exits
+    # ---- R5: exits (followed on the product with variant tags, so `recv().ok()` + `while let Some(..)` and helper functions are
+    # treated like the nested `match .. { Err(_) => break }`)
+    from .. import absreach
+
+    def leaves_loop(call_blk, variant):
+        t_ = w.term(call_blk)
+        if t_.get("target") is None or t_["dest"]["p"]:
+            return False
+        seen_ = absreach.feasible_from(w, [t_["target"]], prog, init={("var", t_["dest"]["l"]): variant})
+        return not any(r in seen_ for r in recv)
     for rblk in recv:
-        for label, want in (("Err", True),):
-            for (s, tgt) in _edges_of_result(prog, w, rblk, "Err"):
-                seen = w.reachable([tgt])
-                chk.ob("R5.worker_exit", fn, "recv() Err (channel closed) leaves the loop", not any(r in seen for r in recv),
-                       "a worker keeps looping after the channel was closed: drop of the pool leaves spinning/blocked workers", where=w.where(s))
+        chk.ob("R5.worker_exit", fn, "recv() Err (channel closed) leaves the loop", leaves_loop(rblk, "Err"),
+               "a worker keeps looping after the channel was closed: drop of the pool leaves spinning/blocked workers", where=w.where(rblk))
     for (s, tgt) in shutdown_edges:
-        seen = w.reachable([tgt])
+        seen = absreach.feasible_from(w, [tgt], prog)
         chk.ob("R5.worker_exit", fn, "Message::Shutdown leaves the loop", not any(r in seen for r in recv), "", where=w.where(s))
     for blk, t in w.calls_to(r"^std::sync::Mutex::<T>::lock$"):
-        for (s, tgt) in _edges_of_result(prog, w, blk, "Err"):
-            seen = w.reachable([tgt])
-            chk.ob("R5.worker_exit", fn, "poisoned queue lock leaves the loop (no busy loop)", not any(r in seen for r in recv), "", where=w.where(s))
+        chk.ob("R5.worker_exit", fn, "poisoned queue lock leaves the loop (no busy loop)", leaves_loop(blk, "Err"), "", where=w.where(blk))
 
 
 def _edges_of_result(prog, body, call_block, label):
